@@ -47,7 +47,7 @@ def build(seed, shuffle_seed=None):
 
     for i, o in enumerate(objs):
         fields = []
-        for k in range(r.choice([1, 2, 2, 3, 4])):
+        for k in range(r.choice([0, 1, 2, 2, 3, 4])):     # an object without fields can hold nothing unsafe: it is safe
             x = r.random()
             if x < 0.55:
                 target = r.choice(objs)
